@@ -176,9 +176,16 @@ def run_job(unit, job, cpath, outdir, tier, extra_defines=()):
     else:
         gi = ['goto-instrument', '--dfcc', entry]
         if job.get('enforce'):
-            gi += ['--enforce-contract', job['enforce']]
+            # recursive functions: recursive calls are assumed to satisfy the contract being enforced
+            gi += ['--enforce-contract-rec' if job.get('recursive') else '--enforce-contract', job['enforce']]
+        # a replace target the code under test does not call (any more) is not in the binary; goto-instrument aborts on it
+        _rc, _st, _, _ = run(['goto-instrument', '--show-symbol-table', a_gb], 120)
+        present = set(re.findall(r'^Symbol\.+: (\S+)$', _st, re.M))
         for r in job.get('replace', []):
-            gi += ['--replace-call-with-contract', r]
+            if r in present:
+                gi += ['--replace-call-with-contract', r]
+            else:
+                res.cmds.append('(replace target %s is not called by the code under test: skipped)' % r)
         if job.get('loop_contracts', True):
             gi += ['--apply-loop-contracts']
         gi += [a_gb, b_gb]
